@@ -122,6 +122,27 @@ def normal_multipliers(ctx):
                     vals[s.guards[0][1]] = ast.literal_eval(s.vnode)
             ok = full and vals == {True: -1, False: 1}
             why = "loop over all elements: %s; multiplier where `domain index in swapped_normals`: %s, elsewhere: %s (must be -1 / +1)" % (full, vals.get(True), vals.get(False))
+        elif len(S) == 1 and not S[0].loops and not S[0].guards:
+            # vectorised form: N = ones(#elements); N[isin(domain_indices, <swapped normals as a sequence>)] = -1
+            from .rwgdofs import _sentinel
+
+            alloc = [s for s in fn.body if isinstance(s, ast.Assign) and unparse(s.targets[0]) == N]
+            sl = S[0].tnode.slice
+            is_in = isinstance(sl, ast.Call) and unparse(sl.func).split(".")[-1] in ("isin", "in1d") and len(sl.args) >= 2 and not any(k.arg == "invert" for k in sl.keywords)
+            if not (len(alloc) == 1 and _sentinel(alloc[0].value, fn) == 1 and is_in and roles.canon(sl.args[0], defs).replace(" ", "") == "%s.domain_indices" % pa[0]):
+                raise AnalysisError("_process_segments: vectorised multiplier assignment of a shape the rule does not know")
+            members = sl.args[1]
+            raw = isinstance(members, ast.Name) and members.id == pa[3]
+            conv = isinstance(members, ast.Call) and unparse(members.func).split(".")[-1] in ("list", "tuple", "sorted", "array", "asarray", "fromiter") and members.args and (
+                unparse(members.args[0]) == pa[3] or (isinstance(members.args[0], ast.Call) and unparse(members.args[0].func) in ("list", "tuple", "sorted") and unparse(members.args[0].args[0]) == pa[3]))
+            if not (raw or conv):
+                raise AnalysisError("_process_segments: membership is tested against `%s`" % unparse(members)[:60])
+            val = ast.literal_eval(S[0].vnode) if isinstance(S[0].vnode, (ast.Constant, ast.UnaryOp)) else None
+            ok = conv and val == -1
+            why = ("multipliers start at 1 and are set to %s where %s(domain_indices, %s); " % (val, unparse(sl.func), unparse(members))) + (
+                "" if conv else "the membership test receives the caller's collection as it is: for a set, frozenset or dict (the function's own default is `{}`) NumPy compares every domain index with the collection as ONE object, so no element is swapped")
+        else:
+            raise AnalysisError("_process_segments: multiplier assignment of a shape the rule does not know (%s)" % why)
     r.check(ok, "_process_segments", SP, fn.name, fn.lineno, "normal multiplier assignment", why)
 
 
